@@ -328,4 +328,104 @@ Section Quad.
     transitivity ((two * half) * mvf co n2 Vd (mvf co n2 (Sof co d Pf Af) mu) i); [|ring].
     rewrite Hhalf. ring.
   Qed.
+
+  (* ================= symplecticity of the embedded map, complex and real ================= *)
+  Lemma mmf_zerof_r : forall n X, eqm n (mmf co n X Z) Z.
+  Proof. intros n X i j _ _. unfold mmf, zerof. exact (sum_zero_r co Ath n (fun k => X i k)). Qed.
+  Lemma mmf_zerof_l : forall n Y, eqm n (mmf co n Z Y) Z.
+  Proof. intros n Y i j _ _. unfold mmf, zerof. exact (sum_zero_l co Ath n (fun k => Y k j)). Qed.
+  Lemma mmf_oppf_r : forall n X Y, eqm n (mmf co n X (oppf Y)) (oppf (mmf co n X Y)).
+  Proof.
+    intros n X Y i j _ _. unfold mmf, oppf.
+    rewrite (sumn_ext co n _ (fun k => m1 * (X i k * Y k j))) by (intros; ring).
+    rewrite (sumn_mul_l co Ath). ring.
+  Qed.
+  Lemma mmf_oppf_l : forall n X Y, eqm n (mmf co n (oppf X) Y) (oppf (mmf co n X Y)).
+  Proof.
+    intros n X Y i j _ _. unfold mmf, oppf.
+    rewrite (sumn_ext co n _ (fun k => m1 * (X i k * Y k j))) by (intros; ring).
+    rewrite (sumn_mul_l co Ath). ring.
+  Qed.
+  Lemma addf_zerof_r : forall n X, eqm n (ad X Z) X.
+  Proof. intros n X i j _ _. unfold addf, zerof. ring. Qed.
+  Lemma addf_zerof_l : forall n X, eqm n (ad Z X) X.
+  Proof. intros n X i j _ _. unfold addf, zerof. ring. Qed.
+
+  (* the complex symplectic form diag(I, -I) and the real one [[0, I], [-I, 0]] (xxpp ordering) *)
+  Definition Omc : @fmat A := blk d I Z Z (oppf I).
+  Definition Om : @fmat A := blk d Z I (oppf I) Z.
+
+  Ltac simp_blocks :=
+    repeat (rewrite (mmf_idf_r co Ath d) || rewrite (mmf_zerof_r d) || rewrite (mmf_zerof_l d)
+            || rewrite (mmf_oppf_r d) || rewrite (mmf_oppf_l d)
+            || rewrite (addf_zerof_r d) || rewrite (addf_zerof_l d)).
+
+  (* embed_symplectic: if Pf Pf^dagger = I + Af Af^dagger and Pf Af^T = Af Pf^T then
+     S = [[Pf, Af], [conj Af, conj Pf]] satisfies S diag(I,-I) S^dagger = diag(I,-I) *)
+  Theorem S_symplectic : forall Pf Af,
+    eqm d (mmf co d Pf (tr (cj Pf))) (ad I (mmf co d Af (tr (cj Af)))) ->
+    eqm d (mmf co d Pf (tr Af)) (mmf co d Af (tr Pf)) ->
+    eqm n2 (cong co n2 (Sof co d Pf Af) Omc) Omc.
+  Proof.
+    intros Pf Af H1 H2.
+    assert (H1c : eqm d (mmf co d (cj Pf) (tr Pf)) (ad I (mmf co d (cj Af) (tr Af)))).
+    { intros i j Hi Hj. pose proof (H1 i j Hi Hj) as E. apply (f_equal conj) in E.
+      unfold mmf, addf, trf, cjf, idf in *. rewrite conj_add in E.
+      rewrite !(sumn_conj co conj_0 conj_add) in E.
+      rewrite (sumn_ext co d _ (fun k => conj (Pf i k * conj (Pf j k)))) by (intros; rewrite conj_mul, conj_conj; reflexivity).
+      rewrite E. f_equal.
+      - destruct (Nat.eqb i j); [apply conj_1|apply conj_0].
+      - apply (sumn_ext co). intros. rewrite conj_mul, conj_conj. reflexivity. }
+    assert (H2c : eqm d (mmf co d (cj Pf) (tr (cj Af))) (mmf co d (cj Af) (tr (cj Pf)))).
+    { intros i j Hi Hj. pose proof (H2 i j Hi Hj) as E. apply (f_equal conj) in E.
+      unfold mmf, trf, cjf in *. rewrite !(sumn_conj co conj_0 conj_add) in E.
+      rewrite (sumn_ext co d _ (fun k => conj (Pf i k * Af j k))) by (intros; rewrite conj_mul; reflexivity).
+      rewrite E. apply (sumn_ext co). intros. rewrite conj_mul. reflexivity. }
+    unfold cong, Sof, Omc. rewrite (adjf_blk co d). unfold adjf.
+    rewrite (mmf_blk co Ath d). rewrite (mmf_blk co Ath d).
+    apply blk_proper; simp_blocks; rewrite ?(cjf_cjf co conj_conj d).
+    - rewrite H1. intros i j _ _. unfold addf, oppf. ring.
+    - rewrite H2. intros i j _ _. unfold addf, oppf, zerof. ring.
+    - rewrite <- H2c. intros i j _ _. unfold addf, oppf, zerof. ring.
+    - rewrite H1c. intros i j _ _. unfold addf, oppf. ring.
+  Qed.
+
+  Lemma Mof_Omc : eqm n2 (Mof Omc) (sclf (two * ii) Om).
+  Proof.
+    unfold Mof, Omc, Om. rewrite conjV. unfold conjVexpr.
+    etransitivity; [|symmetry; apply sclf_blk].
+    apply blk_proper; intros i j _ _; unfold addf, sclf, oppf, zerof; ring.
+  Qed.
+
+  Lemma ii_half : ((- ii) * half * half * half) * (two * ii) = half * half.
+  Proof.
+    transitivity ((- (ii * ii)) * (half * half) * (two * half)); [ring|]. rewrite Hii, Hhalf. ring.
+  Qed.
+
+  (* ... and then the real matrix Sr of the xxpp basis is symplectic: Sr Om Sr^T = Om *)
+  Theorem Sr_symplectic : forall Pf Af,
+    eqm d (mmf co d Pf (tr (cj Pf))) (ad I (mmf co d Af (tr (cj Af)))) ->
+    eqm d (mmf co d Pf (tr Af)) (mmf co d Af (tr Pf)) ->
+    eqm n2 (mmf co n2 (mmf co n2 (Sr Pf Af) Om) (tr (Sr Pf Af))) Om.
+  Proof.
+    intros Pf Af H1 H2.
+    pose proof (Mof_cong (Sof co d Pf Af) Omc) as D.
+    rewrite (S_symplectic Pf Af H1 H2) in D.
+    assert (Hadj : eqm n2 (adjf co (Mof (Sof co d Pf Af))) (tr (SrD Pf Af))).
+    { unfold adjf. rewrite SrD_is_M. rewrite SrD_real. reflexivity. }
+    rewrite Hadj in D. rewrite SrD_is_M, Mof_Omc in D.
+    rewrite (mmf_sclf_r n2), (mmf_sclf_l n2) in D.
+    unfold Sr. rewrite (trf_sclf n2).
+    repeat (rewrite (mmf_sclf_l n2) || rewrite (mmf_sclf_r n2) || rewrite (sclf_sclf n2)).
+    set (Y := mmf co n2 (mmf co n2 (SrD Pf Af) Om) (tr (SrD Pf Af))) in *.
+    intros i j Hi Hj. specialize (D i j Hi Hj). unfold sclf in *.
+    transitivity ((((- ii) * half * half * half) * (two * ii)) * Y i j).
+    - rewrite ii_half. ring.
+    - transitivity (((- ii) * half * half * half) * ((two * ii) * Y i j)); [ring|].
+      rewrite D.
+      transitivity ((((- ii) * half * half * half) * (two * ii)) * (two * two) * Om i j); [ring|].
+      rewrite ii_half.
+      transitivity (((two * half) * (two * half)) * Om i j); [ring|].
+      rewrite Hhalf. ring.
+  Qed.
 End Quad.
